@@ -60,6 +60,9 @@ def run(prog, R, tier="quick", only_rule=None):
     # a blob file that still holds live bytes is never judged dead (a pointer into it would dangle)
     from rules.props import c09
     c09.dead_rule_shared(prog, R, "C08.g")
+    # a blob file named by the current version is never unlinked: marks come only after the version without it is published
+    from rules.props import c05
+    c05.c05c(prog, R, rid="C08.h")
 
 
 def c08a(prog, R):
